@@ -35,6 +35,8 @@ def items(tier, seed):
     for ts in ("q", "qtilde", "q0"):
         for base in ("normal", "clipped_normal"):
             out.append((ts, base))
+    for ts in ("q", "qtilde", "q0"):
+        out.append((ts, "sequence"))
     out.append(("errors", None))
     return out
 
@@ -70,6 +72,9 @@ def harness_for(item):
     ts, base = item
     if ts == "errors":
         return _errors
+
+    if base == "sequence":
+        return lambda env: _sequence(env, ts)
 
     def h(env):
         tb = env.install_backend()
@@ -137,6 +142,47 @@ def harness_for(item):
         env.eq("b-shift", b.shift, 0, key=f"{ts}:shift")
         env.eq("cdf", sb.cdf(tstat), _phi(env, N(tstat) + a), key=f"{ts}:cdf")
     return h
+
+
+def _sequence(env, ts):
+    """one calculator used for several tested values in a row: every call uses ITS OWN observed and Asimov statistics"""
+    tb = env.install_backend()
+    N = env.num
+    model = _model(env)
+    cfg = model.config
+    data = tb.astensor([env.sym(f"d{i}") for i in range(cfg.nmaindata + cfg.nauxdata)])
+    stat = _StatStub(env, model)
+    # every call of the statistic gets fresh symbols; even-numbered calls are "observed", odd ones "Asimov"
+    orig = stat.__call__
+
+    def stat_call(mu, d, pdf, ip, pb, fp, return_fitted_pars=False):
+        out = _StatStub.__call__(stat, mu, d, pdf, ip, pb, fp, return_fitted_pars)
+        if len(stat.calls) % 2 == 0:
+            env.assume(N(stat.calls[-1]["q"]) > 0)
+        return out
+    calc = CALC.AsymptoticCalculator(data, model, test_stat=ts)
+    asim = []
+
+    def fake_asimov(amu, d, pdf, ip, pb, fp, return_fitted_pars=False):
+        a = tb.astensor([env.sym(f"A{len(asim)}_{i}") for i in range(cfg.nmaindata + cfg.nauxdata)])
+        asim.append(a)
+        return (a, tb.astensor([env.sym(f"ap{len(asim)}_{i}") for i in range(cfg.npars)])) if return_fitted_pars else a
+    with patched(("pyhf.infer.utils", "get_test_stat", lambda name: stat_call), ("pyhf.infer.calculators", "generate_asimov_data", fake_asimov)):
+        for k in range(3):
+            mu = env.sym(f"mu{k}")
+            tstat = calc.teststatistic(mu)
+            if len(stat.calls) != 2 * (k + 1):
+                env.fail(f"call{k}:evaluations", f"{len(stat.calls)} statistic evaluations after {k + 1} calls (each call needs its own observed and Asimov statistic)", key=f"{ts}:sequence:stale")
+                return
+            q, qA = N(stat.calls[2 * k]["q"]), N(stat.calls[2 * k + 1]["q"])
+            env.eq(f"call{k}:asimov-mu", stat.calls[2 * k + 1]["mu"], mu, key=f"{ts}:sequence:stale")
+            s_, a_ = q.sqrt(), qA.sqrt()
+            want = s_ - a_ if ts in ("q", "q0") else env.ite(q <= qA, s_ - a_, (q - qA) / (2 * a_))
+            env.eq(f"call{k}:teststat", tstat, want, key=f"{ts}:sequence:teststat")
+            sb, b = calc.distributions(mu)
+            env.eq(f"call{k}:shift", sb.shift, -a_, key=f"{ts}:sequence:stale")
+            CLsb, CLb, CLs = calc.pvalues(tstat, sb, b)
+            env.eq(f"call{k}:CLb", CLb, _phi(env, -(want)), key=f"{ts}:sequence:CLb")
 
 
 def _errors(env):
